@@ -13,6 +13,7 @@ import LlirModel.Drv.Core3Ops
 import LlirModel.Drv.HistOps
 import LlirModel.Drv.FloatOps
 import LlirModel.Drv.MetaOps
+import LlirModel.Drv.WholeOps
 open Llir Llir.Drv
 
 def dispatch (op : String) (args : List String) : String :=
@@ -59,6 +60,9 @@ def dispatch (op : String) (args : List String) : String :=
   | some r => r
   | none =>
   match metaOps op args with
+  | some r => r
+  | none =>
+  match wholeOps op args with
   | some r => r
   | none => "unknown-op"
 
